@@ -126,7 +126,7 @@ INT_RANGES = [(0, 2**32 - 1), (0, 255), (0, 2**32 - 1), (0, 255), (0, 255), (0, 
 _NAMES = ["lid", "state", "crc", "mat", "click", "parent", "tree", "pc", "prc", "pb", "pe", "sx", "sy", "shx", "shy", "tw", "twb",
           "ro", "tx", "ty", "rev", "sk", "prb", "pre", "ph"]
 _RNG = " & ".join(f"({lo} <= {n}) & ({n} <= {hi})" for n, (lo, hi) in zip(_NAMES, INT_RANGES))
-FLAG_CAT = [0, 1, 2, 4, 8, 16, 32, 64, 128, 256, 512, 1024, 2047, 0x2A5, 0x55A, 36, 3]
+FLAG_CAT = [0, 1, 2, 4, 8, 16, 32, 64, 128, 256, 512, 1024, 2047, 0x2A5, 0x55A, 36, 3, 0xA0]
 
 
 def compare(flags, pcode_i, ints, sp, txt) -> bool:
@@ -173,8 +173,8 @@ decoders_agree_allflags.__module__ = __name__   # noqa: F821
 _RNG = " & ".join(f"({lo} <= {n}) & ({n} <= {hi})" for n, (lo, hi) in zip(_NAMES, INT_RANGES) if n in _SYM)
 _PRE = [_RNG, "0 <= pcode_i <= 3", "len(sp) <= 1", "len(txt) <= 1", "all(1 <= x <= 127 for x in txt)",
         "state in (0, 1, 0x0F, 0x80, 0xF0, 0xFF)"]     # the State byte goes through enum.Flag lookups: realized per value
-harness(pre=["0 <= fl < 17"] + _PRE, post="_", timeout=900,
-        note="17 section-flag patterns (none, each of the 11 sections alone, all, four mixed incl. TREE+SCRATCHPAD) x 4 object kinds x symbolic "
+harness(pre=["0 <= fl < 18"] + _PRE, post="_", timeout=900,
+        note="18 section-flag patterns (none, each of the 11 sections alone, all, five mixed incl. TREE+SCRATCHPAD and PARENT_ID+ANGULAR_VELOCITY) x 4 object kinds x symbolic "
              "local id, CRC, parent id, 6 values of the PCode-dependent State byte, tree species and three path/profile parameters over their "
              "full wire range (the other 17 parameters at boundary constants) x symbolic scratchpad / text (<=1 byte): the "
              "hand-optimised decoder and the declarative template decode the template-produced payload to equal field values, "
@@ -182,15 +182,16 @@ harness(pre=["0 <= fl < 17"] + _PRE, post="_", timeout=900,
 harness(pre=["0 <= flags < 2048"] + _PRE, post="_", timeout=3000, tiers=("thorough",),
         note="all 2^11 section-flag combinations (thorough tier), same oracle", covers=COVERS)(decoders_agree_allflags)  # noqa: F821
 _PC = ["prim", "avatar", "tree", "grass"]
-for _i, _w in enumerate(shard(decoders_agree, "fl", range(17), [f"flags_{FLAG_CAT[i]:03x}" for i in range(17)],  # noqa: F821
+for _i, _w in enumerate(shard(decoders_agree, "fl", range(18), [f"flags_{FLAG_CAT[i]:03x}" for i in range(18)],  # noqa: F821
                               globals())):
-    # quick: no section / SCRATCHPAD / TEXT / PARENT_ID / ANGULAR_VELOCITY / NAME_VALUES / TREE+SCRATCHPAD, for prim and tree
-    shard(_w, "pcode_i", range(4), _PC, globals(), quick=(0, 2) if _i in (0, 1, 3, 6, 8, 9, 16) else ())
+    # quick: no section / SCRATCHPAD / TEXT / PARENT_ID / ANGULAR_VELOCITY / NAME_VALUES / TREE+SCRATCHPAD for prim and tree,
+    # PARENT_ID+ANGULAR_VELOCITY (0x0a0) for prim; the 5-section mix 0x2a5 costs > 15 min and stays in the thorough tier
+    shard(_w, "pcode_i", range(4), _PC, globals(), quick=(0, 2) if _i in (0, 1, 3, 6, 8, 9, 16) else ((0,) if _i == 17 else ()))
 for _w in shard(decoders_agree_allflags, "pcode_i", range(4), ["prim", "avatar", "tree", "grass"], globals()):   # noqa: F821
     pass
 
 EVIDENCE = {
-    "bounds": "quick: 7 of 17 flag patterns x prim/tree (all 17 x 4 kinds and all 2048 combinations in thorough); 4 PCode values; 8 integer fields full range (17 at boundary "
+    "bounds": "quick: 8 of 18 flag patterns x prim/tree (all 18 x 4 kinds and all 2048 combinations in thorough); 4 PCode values; 8 integer fields full range (17 at boundary "
               "constants); scratchpad <= 1 byte, text <= 1 ASCII char; floats/UUIDs/TextureEntry/ExtraParams/TextureAnim/PSBlock/NameValue from the "
               "repo's sample payload or constants",
     "outside": "byte-level mutations of payloads (garbage is not 'well-formed'); section contents beyond the stated sizes",
